@@ -25,6 +25,8 @@ def gen_case(rng, cid):
         if text.count(old) == 1:
             text = text.replace(old, new)
     cmds = [['file', 't.vcd', text], ['load', 't.vcd', 'DEFAULT']]
+    if rng.random() < 0.5:
+        cmds.append(['evalstr', '111', '(length SIGNALS)'])      # the list of signals is read before anything is defined
     fr = gen.Frag(rng, {'DEFAULT': info})
     fr.allow_scoped = False      # ~/# inside a body are fixed to the scope captured at definition (covered below)
     defs = []       # (name, body text as readable from anywhere)
